@@ -352,3 +352,39 @@ def run(ctx):
 
     from engine.run import borrow
     borrow(ctx, 'C11', ['WH-NOGROW'], 'metadata set too late (a string replaced after the audio was written) must never alter the audio: the variable-length header writers keep the data offset - fill a shorter header, refuse a longer one before writing it')
+
+    ctx.rule('TEXT-SKIP', 'in the chunk parsers (aiff_read_header, wavlike_subchunk_parse, ...) a text chunk that is too large for the local scratch buffer (a test of its size against the capacity of a local '
+             'array / BUF_UNION, within 2 bytes) is skipped - the branch contains a `j` skip of that chunk and neither jumps out of the chunk list nor returns an error: one over-long string the '
+             'writer accepted must not make the file unreadable (AIFF) or lose every string after it (WAV LIST)', floor=8)
+    n_ts = 0
+    for f in sorted(prog.lib_fns(), key=lambda f: (f.file, f.line)):
+        if not ('read_header' in f.name or f.name == 'wavlike_subchunk_parse'):
+            continue            # exif_subchunk_parse only logs: nothing it gives up on is metadata the library stores
+        caps = set()
+        for n in f.walk():
+            if n['k'] == 'DeclStmt':
+                for d in n.get('decls') or []:
+                    t = d.get('t') or ''
+                    if ('[' in t and d.get('sz', 0) >= 256 and 'char' in t) or t == 'BUF_UNION':
+                        caps.add(8192 if t == 'BUF_UNION' else d['sz'])
+        if not caps:
+            continue
+        for x in f.walk():
+            if x['k'] != 'IfStmt':
+                continue
+            cn = f.unwrap(f.N[x['cond']])
+            hits = [y for y in f.walk(cn) if y['k'] == 'BinaryOperator' and y.get('op') in ('>=', '>') and f.unwrap(f.N[y['kids'][1]]).get('v') is not None
+                    and any(K - 2 <= f.unwrap(f.N[y['kids'][1]])['v'] <= K for K in caps) and 'file.name' not in f.s(y) and 'channels' not in f.s(y)]
+            if not hits:
+                continue
+            th = f.N[x['then']]
+            skip = any((f.unwrap(f.args(c)[1]).get('s') or '') == 'j' for c in f.calls('psf_binheader_readf', root=th))
+            gotos = [y for y in f.walk(th) if y['k'] == 'GotoStmt']
+            errret = [y for y in f.walk(th) if y['k'] == 'ReturnStmt' and y.get('kids') and (f.s(f.unwrap(f.N[y['kids'][0]])).startswith('SFE_') or f.unwrap(f.N[y['kids'][0]]).get('dk') == 'enum' or
+                      (f.unwrap(f.N[y['kids'][0]]).get('k') != 'DeclRefExpr' and f.unwrap(f.N[y['kids'][0]]).get('v') not in (0, None)))]
+            n_ts += 1
+            ok = skip and not gotos and not errret
+            ctx.ob('TEXT-SKIP', '%s@%d' % (f.name, x['l']), ok, f.loc(x), '`%s`: %s' % (f.s(hits[0])[:40], 'the over-long chunk is skipped and parsing goes on' if ok else (
+                   'the parser %s: %s' % ('returns an error' if errret else 'jumps out of the chunk list' if gotos else 'does not skip the chunk',
+                                          'a file the library wrote itself (a long string is accepted by sf_set_string) cannot be opened again' if errret else 'every string after the long one is lost'))), None)
+    ctx.require(n_ts >= 8, 'only %d scratch-buffer size guards found in the chunk parsers' % n_ts)
